@@ -66,7 +66,8 @@ CHECKS = {
         'the live object sees), second_object_reads_live, reload_equal_every_op, db_inv_reachable, db_ledger_consistent, other_wallets_only_marked, delete_reopens_only_its_inputs. '
         'Tie: the first reading after every library call is taken by a SECOND Wallet object / forked process before the live object is touched; unobserved runs; funding transactions with '
         'several wallet outputs spent by different transactions then deleted / re-stored / imported; several wallets in one file registering the same outpoints in both orders.'
-        ' Round 3: key kinds without key material (imported addresses, public-only keys, wallets from an account xpub), reload fidelity of imported transactions (version 2/3, locktime, sequences; own raw parser), wallets whose default account is not 0: named_account_ignores_default; known finding import_raw_txid_of_version1.',
+        ' Round 3: key kinds without key material (imported addresses, public-only keys, wallets from an account xpub), reload fidelity of imported transactions (version 2/3, locktime, sequences; own raw parser), wallets whose default account is not 0: named_account_ignores_default; known finding import_raw_txid_of_version1.'
+        ' Round 4: 2-of-3 multisig wallets (p2wsh, p2sh, p2sh-p2wsh) whose sorted key order differs from cosigner order; every reloaded input (live object and second Wallet object) is compared with the sent object on address, types, sequence, value, keys IN ORDER and redeem script, and with the witness / redeem script read from the sent bytes by an own BIP11/16/141 reader (reload_input_differs, reload_keys_not_of_script; oracle-level); known finding reload_multisig_threshold.',
    design_ref='DESIGN.md section 6 C08, section 9',
    note='Partial: SQLAlchemy session staleness, sqlite isolation and object lifetime are runtime behaviour reached only through the history differential (testing). '
         'inv_step carries the guard op_ok (evaluated by the driver on every real step); excluded classes restore_resets_spent and cross_account_output (one account per '
